@@ -625,8 +625,23 @@ def applyEdits (p : Bytes) (spec : String) : Bytes :=
     return out.toList
 
 def readLines (path : String) : IO (Array String) := do
-  let s ← IO.FS.readFile path
-  return (s.splitOn "\n").toArray
+  let h ← IO.FS.Handle.mk path IO.FS.Mode.read
+  let mut out : Array String := #[]
+  repeat
+    let l ← h.getLine
+    if l.isEmpty then break
+    out := out.push (if l.endsWith "\n" then (l.dropEnd 1).toString else l)
+  return out
+
+/-- fold over the lines of a file without holding it in memory -/
+def foldLines {σ} (path : String) (init : σ) (f : σ → String → σ) : IO σ := do
+  let h ← IO.FS.Handle.mk path IO.FS.Mode.read
+  let mut st := init
+  repeat
+    let l ← h.getLine
+    if l.isEmpty then break
+    st := f st (if l.endsWith "\n" then (l.dropEnd 1).toString else l)
+  return st
 
 def findCase (cs : Array CaseRec) (id : String) : Option CaseRec := cs.find? (·.id == id)
 
@@ -671,42 +686,68 @@ def modeXcmp (args : List String) : IO UInt32 := do
   rep.print
   return 0
 
+def judgeMutRec (cases : Array CaseRec) (rep : Report) (rc : Rec) : Report := Id.run do
+  let mut rep := rep
+  if rc.r.startsWith "WF " then
+    -- WF <case> <pos> <style> <result> <written> <total> <prefix|NOTPREFIX>: a sink failing at `pos` must not yield Ok
+    let ws := words rc.r
+    rep := rep.bump "write_faults"
+    let pos := (ws.getD 2 "0").toInt!
+    let total := (ws.getD 6 "0").toNat!
+    let res := ws.getD 4 "?"
+    if pos < 0 then return rep.fail s!"{ws.getD 1 "?"}.w" "write-fault-run" s!"writer run failed: {rc.r}" []
+    let modelRes := if pos.toNat < total then "Error" else "Ok"
+    rep := rep.bump s!"hist writefault:{res}"
+    if res != modelRes then
+      rep := rep.fail s!"{ws.getD 1 "?"}.w{pos}" "write-fault" s!"sink failing at {pos} of {total}: ovmb_write returned {res}, model {modelRes}" []
+    else if ws.getD 7 "" == "NOTPREFIX" then
+      rep := rep.fail s!"{ws.getD 1 "?"}.w{pos}" "write-fault-bytes" s!"bytes written before the failure are not a prefix of the file" []
+    return rep
+  match rc.x with
+  | none => return rep.fail "-" "record-without-X" rc.r []
+  | some x =>
+    let xw := words x
+    let id := xw.getD 1 "?"
+    match findCase cases (xw.getD 2 "") with
+    | none => return rep.fail id "unknown-case" "" []
+    | some c =>
+      let cfg := mkCfg (kindOf (xw.getD 3 "p")) (xw.getD 4 "0" == "1")
+      let fa := (xw.getD 6 "-1").toInt!
+      let kind := xw.getD 8 "?"
+      let bytes := applyEdits c.bytes (xw.getD 9 "-")
+      let failAt := if fa < 0 then none else some fa.toNat
+      let impl := implOf rc
+      rep := judgeRead rep id kind cfg bytes failAt impl none (some c.dump)
+      -- C18: truncations and failing sources of a valid file are never accepted (independent of the model run)
+      if (kind == "trunc" || (kind.startsWith "readfault" && fa.toNat < bytes.length)) && (impl.cls == "ok" || impl.cls == "okhuge") then
+        rep := rep.fail id "truncation-accepted" s!"{kind} at {if kind == "trunc" then bytes.length else fa.toNat} of {c.bytes.length} bytes read back Ok" bytes
+      return rep
+
+structure MutSt where
+  rep : Report := {}
+  cur : Option Rec := none
+  pendingX : Option String := none
+
 def modeMut (args : List String) : IO UInt32 := do
   let cases := parseCases (← readLines (args.getD 0 ""))
-  let recs := splitRecs (← readLines (args.getD 1 ""))
-  let mut rep : Report := {}
-  for rc in recs do
-    if rc.r.startsWith "WF " then
-      -- WF <case> <pos> <style> <result> <written> <total>: a sink failing at `pos` must not yield Ok
-      let ws := words rc.r
-      rep := rep.bump "write_faults"
-      let pos := (ws.getD 2 "0").toNat!
-      let total := (ws.getD 6 "0").toNat!
-      let res := ws.getD 4 "?"
-      let modelRes := if pos < total then "Error" else "Ok"
-      rep := rep.bump s!"hist writefault:{res}"
-      if res != modelRes then
-        rep := rep.fail s!"{ws.getD 1 "?"}.w{pos}" "write-fault" s!"sink failing at {pos} of {total}: ovmb_write returned {res}, model {modelRes}" []
-      continue
-    match rc.x with
-    | none => rep := rep.fail "-" "record-without-X" rc.r []
-    | some x =>
-      let xw := words x
-      let id := xw.getD 1 "?"
-      match findCase cases (xw.getD 2 "") with
-      | none => rep := rep.fail id "unknown-case" "" []
-      | some c =>
-        let cfg := mkCfg (kindOf (xw.getD 3 "p")) (xw.getD 4 "0" == "1")
-        let fa := (xw.getD 6 "-1").toInt!
-        let kind := xw.getD 8 "?"
-        let bytes := applyEdits c.bytes (xw.getD 9 "-")
-        let failAt := if fa < 0 then none else some fa.toNat
-        let isValid := kind.startsWith "readfault" && fa.toNat ≥ bytes.length
-        rep := judgeRead rep id kind cfg bytes failAt (implOf rc) (if isValid then some (c.dump.toFile 0) else none) (some c.dump)
-        -- C18: truncations and failing sources of a valid file are never accepted (independent of the model run)
-        if (kind == "trunc" || (kind.startsWith "readfault" && fa.toNat < bytes.length)) && (implOf rc).cls == "ok" then
-          rep := rep.fail id "truncation-accepted" s!"{kind} at {if kind == "trunc" then bytes.length else fa.toNat} of {c.bytes.length} bytes read back Ok" bytes
-  rep.print
+  let flush (st : MutSt) : MutSt :=
+    match st.cur with
+    | some c => { st with rep := judgeMutRec cases st.rep c, cur := none }
+    | none => st
+  let step (st : MutSt) (l : String) : MutSt :=
+    if l.startsWith "X " then { flush st with pendingX := some l }
+    else if l.startsWith "R " then
+      let st := flush st
+      { st with cur := some { x := st.pendingX, r := l }, pendingX := none }
+    else if l.startsWith "WF " then
+      let st := flush st
+      { st with rep := judgeMutRec cases st.rep { r := l } }
+    else if l.startsWith "FILE " then flush st
+    else match st.cur with
+      | some c => { st with cur := some { c with body := c.body.push l } }
+      | none => st
+  let st ← foldLines (args.getD 1 "") ({} : MutSt) step
+  (flush st).rep.print
   return 0
 
 end OVM.Ovmb.Judge
